@@ -157,6 +157,7 @@ class Interp:
         self.unresolved: List[Tuple[str, str, int]] = []
         self.notes: List[str] = []
         self.trace_loads = set()  # attribute names whose loads are recorded as events
+        self.trace_defaults: set = set()  # parameter names whose defaulting is recorded as an event
         self.inline_skip = set()  # function quals not to inline (treated as opaque)
         self.loop_depth = 0
         self.table_values = False
@@ -435,6 +436,8 @@ class Interp:
                 env[name] = kwargs.pop(name)
             elif defaults[i] is not None:
                 env[name] = self.const_default(defaults[i])
+                if name in self.trace_defaults:
+                    self.emit(st, "default", f"{info.qual}:{name}", node, args=(env[name],))
             else:
                 return None
         extra = args[len(params) :]
@@ -447,6 +450,8 @@ class Interp:
                 env[kwo.arg] = kwargs.pop(kwo.arg)
             elif dflt is not None:
                 env[kwo.arg] = self.const_default(dflt)
+                if kwo.arg in self.trace_defaults:
+                    self.emit(st, "default", f"{info.qual}:{kwo.arg}", node, args=(env[kwo.arg],))
             else:
                 return None
         if a.kwarg:
